@@ -10,7 +10,7 @@ from props.base import to_request, corpus_for  # noqa: F401
 
 ID = 'C03'
 CASE_TIMEOUT = None      # impl() runs each program under its own alarm (case['timeout'])
-LEAN_MODULES = ['PybtexModel.Props.C03', 'PybtexModel.Props.C03x']
+LEAN_MODULES = ['PybtexModel.Props.C03', 'PybtexModel.Props.C03x', 'PybtexModel.Props.C03y']
 THEOREMS = {
     'C03_builtin_short_stack': "[model wiring] pins the model's own equation (closed form; tie to builtins.py: the correspondence check): every built-in pops arity(b) raw values first (Python order) and only then looks at them: on a shorter stack it raises BibTeXError(pop from empty stack) whatever the types of the values present",
     'C03_builtin_plus': "[model wiring] pins the model's own equation (closed form; tie to builtins.py: the correspondence check): a b + pushes a+b; fewer than two values -> BibTeXError(pop from empty stack) whatever they are; a non-integer operand -> TypeError (internal), never a default",
@@ -86,6 +86,10 @@ THEOREMS = {
     'C03_straight_line_fuel': 'fuel SUFFICES for straight-line code: for every state s and every function body whose elements are literals, function literals, quoted names, or names that are unbound or bound in s to anything but a FUNCTION and the built-ins if$ / while$ / call.type$ (hypothesis straight s.vars body), the run finishes (state or error other than out-of-fuel) within length + 3 units of fuel and every larger amount of fuel gives the very same result; no claim for bodies that call functions, if$, while$ or call.type$',
     'C03_sort_only': '[model wiring] the function-level entry sortOnly (driver op bstsort, compared with Interpreter.command_sort) is the SORT command of the model on the state holding exactly the given citation list and sort.key$ entries, whatever the fuel and the run parameters - so C03_sort / C03_sort_unique speak about what that op computes',
     'C03_tables_match_source': '[table tie, by evaluation] the tables the model hard-codes against Gen/BstBuiltins.lean (regenerated every run): builtinTable has exactly the keys of pybtex.bibtex.builtins.builtins; initVars holds besides them exactly global.max$ = 20000, entry.max$ = 250 (Integer) and sort.key$ (EntryString); runCommand has a branch for every command_* method of Interpreter (an unknown name, tested on the one sample "NOSUCH", reaches the unknown-command error - no \'only these\' claim); every command the .bst parser accepts (BstParser.COMMANDS) is one of the methods, so the Unknown-command branch of Interpreter.run is unreachable from a parsed file',
+    'C03_loop_free_terminates': 'TERMINATION of loop-free style code within an explicit fuel bound: for every depth d, body and state s with loopFree d s body (a Boolean computed from the body text, the FUNCTION bodies in the variable table of s and the entry types of the database of s: no while$ reachable; every called FUNCTION body loop-free at depth d-1 - so the reachable call graph is acyclic -; every reachable if$ directly preceded by two pushes (literal / function literal / quoted name) whose function literal or quoted FUNCTION is loop-free at depth d-1; call.type$ only if every entry type of the database and default.type is unbound, bound to an object that runs no code, or to a FUNCTION loop-free at depth d-1) the run of the body from s finishes (state or error other than out-of-fuel) with fuelBound d s body units of fuel and with every larger amount, with the very same result; fuelBound is computed from the same data (1 + maximum over the elements; not sharp: 30 where 20 are needed in the example); NOT covered: while$, if$ applied to values that were not pushed by the two preceding elements (duplicate$ / swap$ in between); no claim that the depth d exists for a given style (the shipped styles use while$); nothing about pybtex itself beyond the model correspondence (Python recursion has no fuel, it hits the recursion limit)',
+    'C03_loop_free_terminates_neg': 'the restriction on if$ cannot be dropped: the program {X} X with X = duplicate$ #1 swap$ duplicate$ if$ mentions only the built-ins duplicate$, swap$, if$ (no while$, no call.type$, no FUNCTION: empty call graph), yet from the initial state it is out of fuel with EVERY amount of fuel (proved for all n, induction on the fuel), and loopFree rejects it at every depth; so "no while$ reachable + acyclic call graph" alone does not give termination',
+    'C03_loop_free_execute': 'corollary for the command EXECUTE {t} (hypotheses: upper-cased command name is EXECUTE, the argument group starts with t, loopFree d s [t]): runCommand finishes with every fuel >= fuelBound d s [t] and the result does not depend on that fuel; no claim for whole programs (runProgram)',
+    'C03_loop_free_iterate': 'corollary for the commands ITERATE {f} / REVERSE {f} (hypotheses: upper-cased command name is ITERATE or REVERSE, the argument group starts with a token naming f, f is bound in the state, loopFree d s [f]; f may be call.type$): runCommand finishes with every fuel >= fuelBound d s [f] whatever the number of entries (the fuel of the model is per entry) and the result does not depend on that fuel; no claim for whole programs (runProgram), where FUNCTION / READ change the table and the database the predicate is computed from',
     'C03_apply_named': '[model wiring] the function-level entry applyNamed (driver op bstbuiltin, compared with vars[name].execute(interpreter)) is execTok of the name with one more unit of fuel, for a bound name',
 }
 RULE = ('well-typed straight-line programs: every sequence of up to the tier length of typed units (literals from the operand pool, '
